@@ -93,8 +93,59 @@ def run(v, cases, binary, combos_for=None, sample_n=8):
         cc["got_bytes"] = r.get("bytes")
         cc["exp"] = repr(c["exp"])
         v.violation(cc, sym, detail)
+    acc = [(cases[i], m, r["bytes"]) for (i, m), r in zip(back, res) if "bytes" in r and r.get("rc") == 0 and r["bytes"]]
+    mode_ok = mode_crossing(v, binary, acc)
     return {"lines_assembled": len(items), "held": held, "distinct_encodings_decoded": len(encs),
-            "reference_validated_cases": sum(ok), "cases": len(cases)}
+            "reference_validated_cases": sum(ok), "cases": len(cases), "mode_crossing_checks_ok": mode_ok}
+
+
+def mode_crossing(v, binary, acc):
+    """acc: list of (case dict, option mask, plain bytes hex) of lines accepted by plain assembly.
+    The same encoding in the other assembly modes: a sample of the accepted lines is assembled again (a) with chunk fitting at a
+    position where it does not fit the rest of its chunk, so that it is padded and encoded a second time, and (b) through the
+    counting entry point. The instruction bytes must be those of plain assembly - nothing about an encoding may depend on the
+    mode it is emitted in. Returns the number of checks that held."""
+    import random as _random
+    rs = _random.Random(common.SEED * 7 + len(acc))
+    nmode = 1500 if v.tier != "thorough" else 25000
+    pick = rs.sample(acc, min(len(acc), nmode))
+    mcases, mmeta = [], []
+    for (case, m, b) in pick:
+        hx_ = common.hx(case["text"])
+        L = len(b) // 2
+        c = rs.choice([32, 16, 64]) if L < 16 else 64
+        for mode in ("fit", "cnt"):
+            cmds = ["new 0 ext 256 H 0xcc", "opt 0 mov %s" % m[0], "opt 0 swap %s" % m[1], "opt 0 nobase %s" % m[2]]
+            if mode == "fit":
+                cmds += ["chunk 0 %d" % c, "setoff 0 %d" % (c - 1), "asm 0 %s" % hx_]
+            else:
+                cmds += ["setoff 0 %d" % (c - 1), "cnt 0 %d %s" % (c, hx_)]
+            cmds += ["getoff 0", "dump 0 %d %d" % (c - 1, c + L + 2)]
+            mcases.append(cmds)
+            mmeta.append((case, m, b, mode, c))
+    mres = common.run_cases(binary, mcases, tag=v.prop.lower() + "m")
+    mode_ok = 0
+    for (case, m, b, mode, c), r in zip(mmeta, mres):
+        v.count()
+        cc = {k: x for k, x in case.items() if k not in ("exp", "alt", "nasm")}
+        cc.update({"key": "%s [%s] %s c=%d" % (case["text"], m, mode, c), "combo": m, "fam": "mode_" + mode, "ofam": case.get("fam")})
+        if r["crash"]:
+            v.violation(cc, r["crash"]["sig"], r["crash"]["stderr"][-800:])
+            continue
+        recs = r["records"]
+        a = recs[-3].split()
+        d = recs[-1].split()[1]
+        L = len(b) // 2
+        want = (("90" + b) if (mode == "fit" and L >= 2) else b)
+        if a[1] != "0":
+            v.violation(cc, "%s-mode:rejected" % mode, " ".join(a))
+        elif not d.startswith(want):
+            v.violation(cc, "%s-mode:instruction-bytes-differ-from-plain" % mode, "got %s want %s" % (d[:2 * (L + 1)], want))
+        elif mode == "cnt" and a[4] != ("1" if L >= 2 else "0"):
+            v.violation(cc, "cnt-mode:count", "count %s for a %d-byte instruction at offset c-1" % (a[4], L))
+        else:
+            mode_ok += 1
+    return mode_ok
 
 
 def decode_symptom(b):
